@@ -9,7 +9,7 @@ from ..core import pyfacts as pf
 from ..core import sibling
 from ..core.match import phi_alts, txt
 from ..core.source import AnchorMissing, site_packages_file
-from .common import A2G, ACHAIN, GOOFIT, MAIN, ckey, enclosing, fn, stmt_of, where
+from .common import case_of, A2G, ACHAIN, GOOFIT, MAIN, ckey, enclosing, fn, stmt_of, where
 
 PROP = "C19"
 FILES = [GOOFIT, A2G, MAIN, ACHAIN]
@@ -30,15 +30,17 @@ CONV = ("ampgen2goofit", "ampgen2goofitpy")
 
 
 def run(ctx, ss):
-    for r, f in (("C19.1", c19_1), ("C19.2", c19_2), ("C19.3", c19_3), ("C19.4", c19_4), ("C19.5", c19_5), ("C19.6", c19_6), ("C19.7", c19_7)):
+    for r, f in (("C19.1", c19_1), ("C19.2", c19_2), ("C19.3", c19_3), ("C19.4", c19_4), ("C19.5", c19_5), ("C19.6", c19_6), ("C19.7", c19_7), ("C19.9", c19_9)):
         ctx.guard(r, f, ss)
     from .c20 import c20_1
     ctx.guard("C19.8", c20_1, ss, lambda r: "C19.8")
 
 
 def _printer_name(flow):
-    names = {d.name for d in flow.defs if d.kind == "assign" and d.value is not None and txt(d.value) in ("print", "partial(print, file=output)")
-             or (d.kind == "assign" and d.value is not None and txt(d.value).startswith("partial(print"))}
+    def arms(v):
+        return arms(v.body) + arms(v.orelse) if isinstance(v, ast.IfExp) else [v]
+    names = {d.name for d in flow.defs if d.kind == "assign" and d.value is not None
+             and any(txt(a) == "print" or txt(a).startswith("partial(print") for a in arms(d.value))}
     if len(names) != 1:
         raise AnchorMissing(f"no single local bound to print / partial(print, …) ({sorted(names)})")
     return names.pop()
@@ -68,34 +70,35 @@ def c19_1(ctx, ss):
                           "to stdout and are missing from the returned text")
         else:
             ctx.holds("C19.1", k, where(ff, ff.node), f"{q}: all output goes through `printer`", len(pf.calls_in(ff.node)))
-        # the two bindings: partial(print, file=output) under ret_output, print otherwise; the returned text is the buffer
-        texts = sorted(flow.text(d.value) for d in binds if d.value is not None)
-        okb = texts == ["partial(print, file=StringIO())", "print"]
-        # returned alternatives (a conditional expression counts as two returns under its test)
-        alts_r = []
-
-        def split_r(conds, v, node):
-            if isinstance(v, ast.IfExp):
-                split_r(conds + [(txt(a_), p_) for a_, p_ in guards.canon_cond(v.test, True)], v.body, node)
-                split_r(conds + [(txt(a_), p_) for a_, p_ in guards.canon_cond(v.test, False)], v.orelse, node)
+        # the sink, case by case (the function specialised to ret_output true / false, whatever statement shape binds the printer):
+        #   ret_output      : printer = partial(print, file=<the function's single StringIO()>), and that buffer's text is returned
+        #   not ret_output  : printer = print, nothing (None) is returned
+        def atom_ro(val):
+            def atom(e):
+                return val if txt(e) == "ret_output" else None
+            return atom
+        problems = []
+        for ro in (True, False):
+            ff2, flow2 = case_of(ss, ff, flow, atom_ro(ro), "ret" if ro else "print")
+            b2 = [d for d in flow2.defs if d.name == pn and d.value is not None]
+            texts = sorted({flow2.text(d.value) for d in b2})
+            rets2 = [r for r in pf.walk_no_nested(ff2.node) if isinstance(r, ast.Return) and r.value is not None and not (isinstance(r.value, ast.Constant) and r.value.value is None)]
+            n_sio = len([c_ for c_ in pf.calls_in(ff2.node) if txt(c_.func) in ("StringIO", "io.StringIO")])
+            if ro:
+                okc = texts == ["partial(print, file=StringIO())"] and n_sio == 1 and len(rets2) == 1
+                if okc:
+                    rv = flow2.expand(rets2[0].value)
+                    okc = isinstance(rv, ast.Call) and isinstance(rv.func, ast.Attribute) and rv.func.attr == "getvalue" and not rv.args and txt(rv.func.value) == "StringIO()" \
+                        and not [c for c in guards.path_conditions(ff2.node, rets2[0]) if c[0] == "if"]
+                if not okc:
+                    problems.append(f"with ret_output the printer is {texts} and the function returns {[flow2.text(r.value)[:40] for r in rets2]}")
             else:
-                alts_r.append((conds, v, node))
-        for r in [r for r in pf.walk_no_nested(ff.node) if isinstance(r, ast.Return) and r.value is not None]:
-            split_r([(txt(e), pol) for kind, e, pol in guards.path_conditions(ff.node, r) if kind == "if"], r.value, r)
-        rets = [(c_, v_, n_) for c_, v_, n_ in alts_r if not isinstance(v_, ast.Constant)]
-        okr = len(rets) == 1 and ("ret_output", True) in rets[0][0]
-        if okb and okr:
-            # the buffer that is returned is the one the printer writes to: both go back to the function's single StringIO()
-            pb = [d.value for d in binds if d.value is not None and txt(d.value).startswith("partial(")]
-            buf = next((kw.value for kw in pb[0].keywords if kw.arg == "file"), None) if pb else None
-            rv = rets[0][1]
-            n_sio = len([c_ for c_ in pf.calls_in(ff.node) if txt(c_.func) in ("StringIO", "io.StringIO")])
-            okr = buf is not None and flow.text(buf) == "StringIO()" and n_sio == 1 and isinstance(rv, ast.Call) and isinstance(rv.func, ast.Attribute) \
-                and rv.func.attr == "getvalue" and not rv.args and "StringIO()" in [txt(a_) for a_ in phi_alts(flow.expand(rv.func.value))]
-        rets = [n_ for _, _, n_ in rets]
-        (ctx.holds if okb and okr else ctx.violation)("C19.1", f"{A2G}:{q} :: sink", where(ff, ff.node),
-                                                      f"{q}: printer is print or print-to-buffer; the buffer is what is returned" if okb and okr
-                                                      else f"{q}: printer bindings {texts}, returns {[txt(r.value) for r in rets]}")
+                okc = texts == ["print"] and not rets2
+                if not okc:
+                    problems.append(f"without ret_output the printer is {texts} and the function returns {[flow2.text(r.value)[:40] for r in rets2]}")
+        (ctx.holds if not problems else ctx.violation)("C19.1", f"{A2G}:{q} :: sink", where(ff, ff.node),
+                                                      f"{q}: printer is print, or print-to-buffer exactly when the text is to be returned; the buffer is what is returned" if not problems
+                                                      else f"{q}: {problems[0]}")
     # embedded positive example (expected count on the tree is zero)
     ex = ast.parse("def conv(ret_output=False):\n    printer = print\n    printer('a')\n    print('b')\n").body[0]
     fired = len(_bare_prints(ex)) == 1
@@ -270,7 +273,7 @@ def c19_4(ctx, ss):
                                                   "every particle of every line is added to all_particles" if oka else "not every particle met while reading is added to all_particles: its _M / _W variables are used but never declared")
         # _SplineArr
         use_s = [d for d in lsflow.defs if d.kind == "assign" and d.value is not None and "_SplineArr" in txt(d.value)]
-        ok_us = len(use_s) == 1 and txt(use_s[0].value) == "programmatic_name(self.name) + '_SplineArr'"
+        ok_us = len(use_s) == 1 and lsflow.text(use_s[0].value) == "programmatic_name(self.name) + '_SplineArr'"
         decl_s = [x for x in pf.walk_no_nested(mp.node) if isinstance(x, ast.BinOp) and "_SplineArr" in txt(x) and "programmatic_name(" in txt(x)]
         ok_ds = any(re.search(r"programmatic_name\((\w+)\) \+ '_SplineArr", txt(x).replace('"', "'")) for x in decl_s)
         (ctx.holds if ok_us and ok_ds else ctx.violation)("C19.4", k + " :: spline", where(ls, ls.node),
@@ -293,6 +296,121 @@ def c19_4(ctx, ss):
                                                 else f"{cls_}: final-state mass constants are declared / listed under different spellings")
 
 
+
+# ---- C19.9: the frame of the generated file -----------------------------------------------------------------------
+CODE_MAKERS = ("make_intro", "make_pars", "to_goofit")
+
+
+def _printer_events(ff, flow):
+    """The converter's printer calls in source order: [(call, kind, text, conditional)] with kind in
+    'code' (prints what a generator method returns), 'literal' (string constants only), 'info' (anything else)."""
+    pn = _printer_name(flow)
+    ev = []
+
+    def visit(stmts, conditional):
+        for st in stmts:
+            if isinstance(st, ast.Expr) and isinstance(st.value, ast.Call) and isinstance(st.value.func, ast.Name) and st.value.func.id == pn:
+                c = st.value
+                if any(isinstance(x, ast.Call) and isinstance(x.func, ast.Attribute) and x.func.attr in CODE_MAKERS for a in c.args for x in ast.walk(a)):
+                    kind, text = "code", ""
+                elif all(isinstance(a, ast.Constant) and isinstance(a.value, str) for a in c.args):
+                    kind, text = "literal", " ".join(a.value for a in c.args)
+                elif c.args and isinstance(c.args[0], ast.Constant) and isinstance(c.args[0].value, str) and c.args[0].value.lstrip().startswith(("//", "#")) \
+                        and "\n" not in c.args[0].value:
+                    kind, text = "literal", c.args[0].value          # a one-line comment with data appended (`// Line`, n)
+                else:
+                    kind, text = "info", ""
+                ev.append((c, kind, text, conditional))
+            elif isinstance(st, (ast.For, ast.While)):
+                visit(st.body, True)
+            elif isinstance(st, ast.If):
+                visit(st.body, True)
+                visit(st.orelse, True)
+            elif isinstance(st, ast.With):
+                visit(st.body, conditional)
+            elif isinstance(st, ast.Try):
+                visit(st.body, True)
+                for h in st.handlers:
+                    visit(h.body, True)
+    visit(ff.node.body, False)
+    return ev
+
+
+def c19_9(ctx, ss):
+    """'The Python output is valid Python', and the same frame for C++: everything that is not code (the report about the
+    amplitudes read) is printed inside ONE comment that is opened and closed unconditionally; what is printed outside it is
+    generator output, or literal text that is valid in the target language.  And every list the generated program
+    accumulates (line factors, spin factors, amplitudes) is both filled and consumed by the generated program."""
+    for q, cls_, lang in ((CONV[0], CH[0], "c++"), (CONV[1], CH[1], "python")):
+        ff, flow = fn(ss, A2G, q)
+        ev = _printer_events(ff, flow)
+        k = f"{A2G}:{q} :: frame"
+        if lang == "python":
+            opens = [i for i, (c, kind, t, cond) in enumerate(ev) if kind == "literal" and t.strip() in ("'''", '"""')]
+            o, cl = (opens[0], opens[1]) if len(opens) == 2 else (None, None)
+        else:
+            o_ = [i for i, (c, kind, t, cond) in enumerate(ev) if kind == "literal" and "/*" in t]
+            c_ = [i for i, (c, kind, t, cond) in enumerate(ev) if kind == "literal" and "*/" in t]
+            o, cl = (o_[0], c_[0]) if len(o_) == 1 and len(c_) == 1 else (None, None)
+        if o is None or not o < cl or ev[o][3] or ev[cl][3]:
+            ctx.violation("C19.9", k, where(ff, ff.node), f"{q}: the report about the amplitudes is not enclosed in exactly one unconditionally opened and closed comment: "
+                          f"the generated {lang} file does not parse")
+            continue
+        bad = None
+        for i, (c, kind, t, cond) in enumerate(ev):
+            inside = o < i < cl
+            if kind == "info" and not inside:
+                bad = (c, f"`{txt(c)[:70]}` prints data outside the comment")
+            elif kind == "code" and inside:
+                bad = (c, f"`{txt(c)[:70]}` prints generated code inside the comment")
+            elif kind == "literal" and not inside and i not in (o, cl):
+                if lang == "python":
+                    try:
+                        ast.parse(t)
+                    except SyntaxError:
+                        bad = (c, f"the literal {t[:50]!r} printed outside the comment is not valid Python")
+                else:
+                    tail = t.split("*/", 1)[1] if "*/" in t else t
+                    if any(ln.strip() and not ln.strip().startswith("//") for ln in tail.split("\n")):
+                        bad = (c, f"the literal {t[:50]!r} printed outside the comment is neither blank nor a // comment")
+            if i == cl and lang == "c++":
+                tail = t.split("*/", 1)[1]
+                if any(ln.strip() and not ln.strip().startswith("//") for ln in tail.split("\n")):
+                    bad = (c, f"text after the closing */ in {t[:50]!r} is neither blank nor a // comment")
+            if bad:
+                break
+        if bad:
+            ctx.violation("C19.9", k, where(ff, bad[0]), f"{q}: {bad[1]}")
+        else:
+            n_in = sum(1 for i in range(len(ev)) if o < i < cl)
+            ctx.holds("C19.9", k, where(ff, ev[o][0]), f"{q}: {n_in} report prints inside one comment; {len(ev) - n_in - 2} prints outside it are generator output or valid {lang} text", len(ev))
+        # accumulators of the generated program
+        mf = pf.module_facts(ss, GOOFIT)
+        cf = mf.classes.get(cls_)
+        corpus = []
+        for node in [m.node for m in (cf.methods.values() if cf else [])] + [ff.node]:
+            corpus += [c.value for c in ast.walk(node) if isinstance(c, ast.Constant) and isinstance(c.value, str)]
+        text = "\n".join(corpus)
+        decl = re.findall(r"^\s*(\w+) = \[\]\s*$", text, re.M) if lang == "python" else re.findall(r"std::vector<[^;\n]*>\s+(\w+);", text)
+        ka = f"{A2G}:{q} :: accumulators"
+        if len(decl) < 3:
+            ctx.violation("C19.9", ka, where(ff, ff.node), f"{q}: the generated program declares the accumulators {decl}; expected line factors, spin factors and amplitudes")
+            continue
+        missing = []
+        for nm in decl:
+            occ = [m.end() for m in re.finditer(rf"\b{nm}\b", text)]
+            fills = [e for e in occ if re.match(r"\.(append|push_back)\(", text[e:e + 12])]
+            uses = [e for e in occ if not re.match(r"\.(append|push_back)\(|\s*=\s*\[\]|;", text[e:e + 12])]
+            if not fills:
+                missing.append(f"{nm} is never filled")
+            if not uses:
+                missing.append(f"{nm} is filled but never handed on (e.g. to DK3P_DI.amplitudes)")
+        if missing:
+            ctx.violation("C19.9", ka, where(ff, ff.node), f"{q}: {missing[0]}")
+        else:
+            ctx.holds("C19.9", ka, where(ff, ff.node), f"{q}: the accumulators {decl} are each filled and consumed by the generated program", len(decl))
+
+
 REN = {"GooFitPyChain": "<CLS>", "GooFitChain": "<CLS>", "ampgen2goofitpy": "<CONV>", "ampgen2goofit": "<CONV>"}
 
 
@@ -305,7 +423,16 @@ def c19_5(ctx, ss):
     k = f"{A2G}:converters :: siblings"
     dif = sibling.diff(sa, sb)
     dh = sibling.diff(ha, hb)
-    dl = [] if (dif or dh) else sibling.logic_diff(a.node, b.node, REN)
+    layout_only = False
+    if dif or dh:
+        # layout-only difference of one converter?  compare what the two emit (see c18_5)
+        from ..core.defuse import flow_of
+        ea, eb = sibling.emission_skeleton(a.node, flow_of(ss, a), REN), sibling.emission_skeleton(b.node, flow_of(ss, b), REN)
+        if not sibling.diff(ea, eb):
+            dif, dh = [], []
+            ha = ea
+            layout_only = True
+    dl = [] if (dif or dh or layout_only) else sibling.logic_diff(a.node, b.node, REN)
     if dl:
         ctx.violation("C19.5", k, where(b, b.node), f"the two converters compute different things outside the printed text: C++ `{dl[0][0][:80]}` vs Python `{dl[0][1][:80]}`")
     elif not dif and not dh:
